@@ -21,3 +21,19 @@ Theorem C16_client_pump_not_stuck : forall c t ls, Forall wf_lab ls -> run_ok ls
   pumpStuck (run ls (init c t)) = false.
 Proof. exact pump_never_stuck_S0. Qed.
 Print Assumptions C16_client_pump_not_stuck.
+
+(** Restart: for every S0 history that ends stopped, Start yields the state Start yields on a new endpoint of the same
+    capacity and timeout, up to what the environment owns (history, clock, network condition): no stale outstanding
+    request, queued call, callback, wake-up token or travelling conclusion (the last two since the repairs F31 / F32). *)
+Theorem C16_client_restart_state_fresh : forall c t ls, Forall wf_lab ls -> run_ok ls (init c t) = true ->
+  let s := run ls (init c t) in
+  started s = false -> stopSig s = false ->
+  same_modulo_env (step Start s) (step Start (init (cap s) (timeout s))).
+Proof. exact restart_fresh_S0. Qed.
+Print Assumptions C16_client_restart_state_fresh.
+
+(** its premises are met by a concrete non-trivial stopped state *)
+Example C16_restart_premises_met :
+  let s := qrun [Start; Send 1 true; Send 2 true; Reply 1 0; Stop] (init 2 0) in
+  started s = false /\ stopSig s = false /\ List.length (tr s) = 9%nat.
+Proof. vm_compute. repeat split; reflexivity. Qed.
